@@ -132,6 +132,7 @@ def _memo(fn):
 
 def base_env(registry: Registry) -> dict:
     env = {
+        "some": lambda x: x,
         "forall": _forall, "exists": _exists, "implies": _implies, "keys": lambda d: list(d.keys()),
         "iff": lambda a, b: bool(a) == bool(b),
         "strip": lambda s: s.strip(),
